@@ -119,7 +119,10 @@ impl<'a, 'b> HeaderWriter<'a, 'b> {
         for (v, i) in iter {
             i.write(self.cursor)?;
             v.write(self.cursor)?;
-            count.increment();
+            // a header cannot hold more items than its count field can express
+            count = count
+                .checked_next()
+                .ok_or(scursor::WriteError::NumericOverflow)?;
         }
 
         self.cursor.at_pos(pos_of_count, |cur| count.write(cur))
